@@ -32,6 +32,9 @@ template <class T, int DIM, class F> void path(const char* name, uint64_t seed, 
     T v[3] = {0, 0, 0}; int ex = (int)(g() % (2 * emax + 1)) - emax; if (t % 4 == 0) ex = (int)(g() % 41) - 20;
     for (int i = 0; i < DIM; i++) { T m = (T)(1.0L + (long double)(g() >> 11) / (long double)(1ULL << 53)); v[i] = std::ldexp(m, ex - (int)(g() % 3)) * ((g() & 1) ? 1 : -1); }
     if (t % 9 == 1) v[g() % DIM] = std::ldexp(v[0], -(int)(g() % 28));        // near-degenerate: one component much smaller
+    if (t % 9 == 2) { // disparate: one dominant component, the others anywhere below it down to the bottom of the normal range (their squares may underflow: only the squared LENGTH must stay in range)
+      int dom = (int)(g() % DIM); const int lo = std::numeric_limits<T>::min_exponent + 8;
+      for (int i = 0; i < DIM; i++) if (i != dom) { T m = (T)(1.0L + (long double)(g() >> 11) / (long double)(1ULL << 53)); int top = ex - 3; v[i] = std::ldexp(m, lo + (int)(g() % (unsigned)(top - lo + 1))) * ((g() & 1) ? 1 : -1); } }
     std::array<T, 3> d = make(v);
     bool fin = true; for (int i = 0; i < DIM; i++) fin &= std::isfinite((long double)d[i]); if (!fin) { acc.nonfinite++; acc.n++; continue; }
     Qd l2 = 0; for (int i = 0; i < DIM; i++) l2 += (Qd)d[i] * d[i]; double lu = (double)(fabsq(sqrtq(l2) - 1) / (Qd)eps<T>()); if (lu > acc.len_ulps) { acc.len_ulps = lu; acc.wit = (long double)v[0]; }
